@@ -53,6 +53,11 @@ class HV:
 
     def dt(s, y, m, d, h, mi, sec, ns, off, tz):
         c = ch.cdt(ch.ndt(ch.nd(y, m, d), ch.nt(h, mi, sec, ns)), off, ch.tz_value(tz))
+        if ch.tz_fixed_offset(tz) is None:
+            # a legal DateTime of a named zone: its offset is what the zone's rule gives at its instant
+            i = ch.utc_secs(c); i = i if is_sym(i) else z3.BitVecVal(i, ch.W)
+            o = off if is_sym(off) else z3.BitVecVal(off, 32)
+            s.ex.solver.add(ch.tz_rule(tz)(i) == o); s.ex.pc.append(ch.tz_rule(tz)(i) == o)
         return s.val('DateTime', Agg(s.ty('DateTime'), 0, [c]))
 
     def list_(s, xs): return s.val('List', VecV(list(xs), 'vec'))
@@ -94,7 +99,9 @@ def sym_eq(ex, a, b):
             if za.ty != zb.ty or (za.ty == 'Tz' and za.fields[0] != zb.fields[0]): return False
             inst = zand([sym_eq(ex, utc_secs(a), utc_secs(b)), sym_eq(ex, a.fields[0].fields[1].fields[3], b.fields[0].fields[1].fields[3])])
             if za.ty == 'Tz' and tz_fixed_offset(za.fields[0]) is None:
-                return inst       # named zone: local fields follow from the instant through the IANA rules (outside the model)
+                # named zone: the offset is the zone's rule (an uninterpreted function) at the instant; the local fields
+                # follow from instant + offset
+                return zand([inst, sym_eq(ex, a.fields[1], b.fields[1])])
             return zand([inst, sym_eq(ex, a.fields[0], b.fields[0]), sym_eq(ex, a.fields[1], b.fields[1])])
         return zand(sym_eq(ex, p, q) for p, q in zip(a.fields, b.fields))
     if isinstance(a, str) or isinstance(b, str): return a == b
